@@ -13,23 +13,23 @@ Import ListNotations.
 Theorem all_sites_satisfy_contract : forallb site_ok sites = true.
 Proof. vm_compute. reflexivity. Qed.
 
-Definition anchored_keys : list string := [
-  "forecasting/base/_meta.py:_fit_forecasters:_fit_forecaster";
-  "series_as_features/base/estimators/interval_based/_tsf.py:fit:_fit_estimator";
-  "classification/interval_based/_tsf.py:predict_proba:_predict_proba";
-  "classification/dictionary_based/_boss.py:_get_train_probs:_train_predict";
-  "classification/dictionary_based/_boss.py:_individual_train_acc:_train_predict";
-  "classification/dictionary_based/_boss.py:predict:_test_nn";
-  "classification/dictionary_based/_cboss.py:_get_train_probs:_train_predict";
-  "classification/dictionary_based/_cboss.py:_individual_train_acc:_train_predict"
+(* the classes the property names (and the BOSS family of finding F-C12-3) still dispatch through
+   joblib.Parallel - nothing silently dropped or moved to a mechanism the extractor does not see -
+   and the tables are aligned.  Anchored by file and class, not by the names of helper methods or
+   task functions: renaming / extracting helpers inside the class does not matter. *)
+Definition anchored_owners : list string := [
+  "forecasting/base/_meta.py:_HeterogenousEnsembleForecaster";
+  "series_as_features/base/estimators/interval_based/_tsf.py:BaseTimeSeriesForest";
+  "classification/interval_based/_tsf.py:TimeSeriesForestClassifier";
+  "classification/dictionary_based/_boss.py:BOSSEnsemble";
+  "classification/dictionary_based/_boss.py:IndividualBOSS";
+  "classification/dictionary_based/_cboss.py:ContractableBOSS"
 ]%string.
 
-(* the sites the property names are still Parallel call sites (nothing silently dropped), and the
-   key list is aligned with the fact list *)
 Theorem anchored_sites_present :
-  forallb (fun k => existsb (String.eqb k) site_keys) anchored_keys = true /\
-  List.length site_keys = List.length sites.
-Proof. vm_compute. split; reflexivity. Qed.
+  forallb (fun k => existsb (String.eqb k) site_owners) anchored_owners = true /\
+  List.length site_keys = List.length sites /\ List.length site_owners = List.length sites.
+Proof. vm_compute. repeat split; reflexivity. Qed.
 
 (* hence each of them denotes a pool run whose collection does not depend on the schedule *)
 Theorem every_site_schedule_free : forall s, In s sites ->
